@@ -109,7 +109,10 @@ def cases(tier: str, base_seed: int):  # noqa: ANN201
             case["blind"] = rng.choice([0.05, 0.15, 0.5, 1.5, 4.0])
         if rng.random() < 0.3:
             case["join_delay"] = rng.choice([0.01, 0.05, 0.3])
-        if rng.random() < 0.15 and not case.get("blind") and case["hops"] > 1:
+        if rng.random() < 0.3:
+            # a tuning knob: how long a node remembers that it joined a circuit whose owner may still extend it (default 60 s)
+            case["unstable"] = rng.choice([2, 5, 10])
+        if rng.random() < 0.15 and not case.get("blind") and case["hops"] > 1 and not knobs.get("loss"):
             case["stale_exit"] = True
         elif rng.random() < 0.25 and not case.get("blind"):
             case["rounds"] = True
@@ -143,7 +146,8 @@ def execute(case: dict) -> dict:  # noqa: C901, PLR0915
     rng = world.stream("c08")
     hops = case["hops"]
     nn = max(case["nodes"], hops + 2)
-    tw = TunnelWorld(c, n=nn, exits=tuple(range(nn - 2, nn)), settings={"next_hop_timeout": case["nht"], **({"max_circuits": int(case["circuits"])} if case.get("rounds") else {})})
+    tw = TunnelWorld(c, n=nn, exits=tuple(range(nn - 2, nn)), settings={"next_hop_timeout": case["nht"], **({"max_circuits": int(case["circuits"])} if case.get("rounds") else {}),
+                                 **({"unstable_timeout": int(case["unstable"])} if case.get("unstable") else {})})
     faults = list(case.get("faults", []))
     who = case.get("who")
     crafted: dict = {}          # pkt id -> kind
@@ -154,6 +158,7 @@ def execute(case: dict) -> dict:  # noqa: C901, PLR0915
     verified_routes: list = []  # (originator, circuit, hop index) whose routed entry held the originator's keys at append time
     snapshots: dict = {}        # id(circuit) -> list of (peer key, key bytes) of hops so far
     answers_sent = {"n": 0}
+    broken_circuits: set = set()   # circuits that accepted a hop keyed with material nobody holds (documented assumption)
     adv_secrets: list = []      # (ephemeral private key, originator dh public part) known to the adversary
     seen_dh: dict = {}          # circuit id (on that link) -> dh_first_part travelling in clear / known to the relay
     old_answers: dict = {}
@@ -262,6 +267,7 @@ def execute(case: dict) -> dict:  # noqa: C901, PLR0915
                                       f"hop {idx + 1} of circuit {self.circuit_id} was keyed with material the adversary can compute")
                     except Exception:  # noqa: BLE001, S110
                         pass
+            broken_circuits.add(id(self))      # nobody holds these keys: the circuit is dead weight and its relays will sweep it
             world.probe("subst_accepted_but_underivable")
             c.nontrivial(f"subst_accepted/{hops}/{idx}/{who}")
             return
@@ -606,8 +612,12 @@ def execute(case: dict) -> dict:  # noqa: C901, PLR0915
             # relays know X's present address
             from ipv8.peer import Peer
             xs, zs = tw.nodes[-1], tw.nodes[-2]
-            required = Peer(xs.ov.my_peer.public_key.key_to_bin(), zs.address)
-            world.probe("required_exit_known_under_stale_address")
+            xkey = xs.ov.my_peer.public_key.key_to_bin()
+            # (a relay that does not know X at all legitimately falls back to the address the owner names: the history needs every
+            #  possible relay to know X's present address)
+            if all(nd.ov.network.get_verified_by_public_key_bin(xkey) is not None for nd in tw.nodes[1:-1]):
+                required = Peer(xkey, zs.address)
+                world.probe("required_exit_known_under_stale_address")
         for _ in range(0 if case.get("rounds") else case["circuits"]):
             circs.append(o.call(o.ov.create_circuit, hops, required_exit=required) if required is not None
                          else o.call(o.ov.create_circuit, hops))
@@ -631,7 +641,7 @@ def execute(case: dict) -> dict:  # noqa: C901, PLR0915
         # misses a few keep-alive pings in a row legitimately sweeps its entry, and the destroy it sends may be lost as well.
         for onode_name, circ, idx in ([] if case["knobs"].get("loss") else verified_routes):
             onode_obj = next(x for x in tw.nodes if x.name == onode_name)
-            if circ.circuit_id not in onode_obj.ov.circuits or circ.state != "READY" or idx >= len(circ.hops):
+            if circ.circuit_id not in onode_obj.ov.circuits or circ.state != "READY" or idx >= len(circ.hops) or id(circ) in broken_circuits:
                 continue
             node, entry, why = trace(circ, idx)
             import os
@@ -648,6 +658,13 @@ def execute(case: dict) -> dict:  # noqa: C901, PLR0915
             for i, (pk, kb) in enumerate(snapshots.get(id(ci), [])):
                 if i >= len(ci.hops) or ci.hops[i].public_key_bin != pk or kbytes(ci.hops[i].keys) != kb:
                     c.violate("established_hops_immutable", "established_hop_changed", f"hop {i + 1} of circuit {ci.circuit_id}")
+        import os
+        if os.environ.get("C08_WIRE"):
+            for p3 in tw.wire:
+                if p3.label in ("CreatePayload", "CreatedPayload", "ExtendPayload", "ExtendedPayload", 0) and len(p3.data) < 400:
+                    parts3 = cell_parts(p3.data)
+                    print("WIRE %.3f" % p3.t, p3.id, p3.src_node, "->", p3.dst, p3.label, "cid", parts3[0] if parts3 else None, p3.fate, "dup" if p3.dup else "",
+                          "cause", p3.cause)
         n_crafted_rejected = len(crafted) - sum(1 for ev in appended if ev["kinds"])
         if n_crafted_rejected > 0:
             world.probe("crafted_answer_rejected", n_crafted_rejected)
